@@ -203,8 +203,14 @@ def null_element_protocols(ctx):
                     ctx.count("null-element")
                     with warnings.catch_warnings():
                         warnings.simplefilter("ignore")
+                        # NumPy on the very masked value the array holds (a derived null carries whatever payload the
+                        # operation left under it; NumPy's bool() of a masked scalar looks at the payload)
+                        npval = a.to_numpy()
+                        if not (isinstance(npval, np.ma.MaskedArray) and np.ma.getmaskarray(npval).all()):
+                            ctx.count("null-element:not-null-after-construction")
+                            continue
                         try:
-                            want = ("value", f(mv))
+                            want = ("value", f(npval))
                         except Exception as e:  # noqa: BLE001
                             want = ("raises", type(e).__name__)
                         try:
